@@ -93,3 +93,21 @@ func randDrops(rng *rand.Rand, n uint64, styles int) map[uint32]bool {
 	}
 	return d
 }
+
+// outPath returns a file path inside a fresh, empty directory: after a failed
+// operation not only the path but the whole directory must be empty (no
+// temporary or renamed leftovers).
+func outPath(c *Ctx, tag string) (path, dir string) {
+	dir = c.Scratch.Path(tag + "-dir")
+	os.MkdirAll(dir, 0755)
+	return dir + "/out.zap", dir
+}
+
+func listDir(dir string) []string {
+	ents, _ := os.ReadDir(dir)
+	var out []string
+	for _, e := range ents {
+		out = append(out, e.Name())
+	}
+	return out
+}
